@@ -129,8 +129,58 @@ let stx_facts (st : Model.s_tx) =
   let full = Model.spec_serialize st and stripped = Model.spec_serialize_stripped st in
   hex_of full ^ "|" ^ hex_of stripped ^ "|@t|@w|" ^ string_of_int (List.length full) ^ "|" ^ zs (Model.spec_vsize st)
 
+(* ---- the curve used by every extracted model function: Model/EC.v at the regenerated parameters ---- *)
+let cp = Model.schnorr_p and cn = Model.schnorr_n
+let ec_add = Model.point_add cp
+let ec_lift = Model.lift_x cp
+let ec_g = Model.secp_G
+let show_pt = function None -> "INF" | Some (x, y) -> zs x ^ "," ^ zs y
+let pt_of = function A "INF" -> None | L [x; y] -> Some (z_of x, z_of y) | _ -> failwith "point"
+let rec tree_of = function
+  | L [A "leaf"; ts] -> Model.TLeaf (list_of tok_of ts)
+  | L [A "list"] -> Model.TList0
+  | L [A "list"; a] -> Model.TList1 (tree_of a)
+  | L [A "list"; a; b] -> Model.TList2 (tree_of a, tree_of b)
+  | L (A "list" :: _) -> Model.TListMany
+  | _ -> failwith "tree"
+let sarg_of = function
+  | A "none" -> Model.SNone
+  | L [A "root"; b] -> Model.SRoot (bytes_of b)
+  | t -> Model.STree (tree_of t)
+let pair_of = function L [x; y] -> (z_of x, z_of y) | _ -> failwith "pair"
+
 let dispatch (name : string) (args : sx list) : string =
   match name, args with
+  (* ---- C06 ---- *)
+  | "sign_input_stub", [sigs; ht] ->
+      let l = list_of bytes_of sigs in
+      let signer k = let i = int_of_big_int k in if i < List.length l then List.nth l i else List.nth l (List.length l - 1) in
+      opt hex_of (Model.sign_input (big_int_of_int 64) signer (z_of ht))
+  | "normalise", [sg; ht] -> opt hex_of (Model.normalise (bytes_of sg) (z_of ht))
+  | "strict_der_norm", [r; s; ht] -> hex_of (Model.strict_der (z_of r) (Model.normal_s (z_of s))) ^ hex_of [z_of ht]
+  | "bip66_valid", [sg] -> bs (Model.is_valid_signature_encoding (bytes_of sg))
+  (* ---- C20 ---- *)
+  | "ripemd160", [b] -> hex_of (Model.ripemd160 (bytes_of b))
+  | "ripemd160_spec", [b] -> hex_of (Model.ripemd160_spec (bytes_of b))
+  | "tagged_hash", [d; tag] -> hex_of (Model.tagged_hash Model.sha256 (bytes_of d) (str_of tag))
+  | "schnorr_sign", [m; k; a] -> opt hex_of (Model.schnorr_sign Model.sha256 cp cn ec_add ec_lift ec_g (bytes_of m) (bytes_of k) (bytes_of a))
+  | "schnorr_verify", [m; pk; sg] ->
+      opt bs (Model.schnorr_verify Model.sha256 cp cn ec_add ec_lift ec_g (bytes_of m) (bytes_of pk) (bytes_of sg))
+  | "point_add", [a; b] -> show_pt (ec_add (pt_of a) (pt_of b))
+  | "point_mul", [a; k] -> show_pt (Model.point_mul cp (pt_of a) (z_of k))
+  | "lift_x", [x] -> show_pt (ec_lift (z_of x))
+  (* ---- C07 / C08 ---- *)
+  | "full_pubkey", [k] -> opt (fun (x, y) -> zs x ^ "," ^ zs y) (Model.full_pubkey_gen cn ec_add ec_g (bytes_of k))
+  | "to_taproot", [pub; sc] ->
+      opt (fun (xb, odd) -> hex_of xb ^ "," ^ bs odd) (Model.to_taproot Model.sha256 ec_add ec_g Model.params_field (pair_of pub) (sarg_of sc))
+  | "control_block", [pub; t; idx; odd] -> opt hex_of (Model.control_block Model.sha256 (pair_of pub) (tree_of t) (z_of idx) (bool_of odd))
+  | "merkle_root", [t] -> opt hex_of (Model.merkle_root Model.sha256 (tree_of t))
+  | "sign_taproot", [k; dg; ht; sc; tw] ->
+      opt hex_of (Model.sign_taproot Model.sha256 cp cn ec_add ec_lift ec_g Model.params_order
+                    (bytes_of k) (bytes_of dg) (z_of ht) (sarg_of sc) (bool_of tw))
+  | "verify_script_path", [cb; sc; wp] ->
+      bs (Model.verify_script_path Model.sha256 cn ec_add ec_lift ec_g (Model.str_bytes (explode "TapLeaf"))
+            (Model.str_bytes (explode "TapBranch")) (Model.str_bytes (explode "TapTweak")) (bytes_of cb) (bytes_of sc) (bytes_of wp))
   (* ---- C03 / C04 / C05 ---- *)
   | "legacy_pre", [t; i; sc; ht] ->
       opt (fun b -> "P:" ^ hex_of b) (Model.legacy_preimage (tx_of t) (nat_of i) (list_of tok_of sc) (z_of ht))
